@@ -187,7 +187,7 @@ impl Scn12 {
 }
 
 fn tests_text(cases: &[TestCase]) -> Vec<u8> {
-    let wl = Workload { docs: vec![], progs: vec![], params: vec![], tests: cases.to_vec(), template: None, overrides: BTreeMap::new(), mtimes: BTreeMap::new(), mtime_base_s: 0 };
+    let wl = Workload { docs: vec![], progs: vec![], params: vec![], tests: cases.to_vec(), template: None, overrides: BTreeMap::new(), mtimes: BTreeMap::new(), mtime_base_s: 0, odd_names: false };
     wl.tests_text().into_bytes()
 }
 
